@@ -229,6 +229,9 @@ def render_case(shape, prefix='c', kinds='$<>', label_len=1, distinct_labels=Tru
     r.block_order = border       # coarse node k corresponds to block border[k]
     r.atom_maps = atom_maps      # per block: template atom index -> molecule atom
     r.names = names
+    r.desc_on = {a: [(SymStr.mk([k]), SymStr.mk(lab), order) for (k, lab, order) in ds] for a, ds in desc_on.items()}
+    r.pair_count = pair_count
+    r.where = where
     return r
 
 
